@@ -94,6 +94,7 @@ Definition unlock_step (s : db) (conn : N) (c : cmd) : db * list event * option 
           | None => inr (err s c R_UNOWN_ERROR 0)
           | Some cr =>
               let cc := l_cmd (getl s cr) in
+              if negb (l_ack (getl s cr) =? 255) then inr (err s c R_ACK_WAITING (l_locked (getl s cr))) else
               inl (Some (cr, c <| c_lockid := c_lockid cc |> <| c_expried := c_expried cc |> <| c_eflag := c_eflag cc |>
                               <| c_timeout := c_timeout cc |> <| c_tflag := c_tflag cc |> <| c_count := c_count cc |>
                               <| c_rcount := c_rcount cc |>))
